@@ -10,8 +10,8 @@ RULE = ("insgen instances of every instruction class with a syntax of every ppci
         "msp430, or1k, riscv, riscv:rvc/rvf/rvfx, stm8, x86_64, x86_64:x87, xtensa): two base operand vectors per class, every operand "
         "sweeping its whole domain (all registers of its class; integers: every value of [-2^(n-1), 2^n) for probed width n <= 8 (quick) / 12 "
         "(thorough), boundary lattice above; two label names; every nested addressing-mode constructor option with its own sub-sweeps); "
-        "thorough adds operand products/pairs and re-runs the sweep under PYTHONHASHSEED 1..3; quick reduces rvf/rvfx/x87 to the classes "
-        "they add plus the two base vectors of every inherited class.  A case is one instance whose direct encoding succeeds; "
+        "thorough adds operand products/pairs (for classes rvf/rvfx/x87 inherit: under the base target only) and re-runs the 8-bit sweep "
+        "under PYTHONHASHSEED 1..3; quick reduces rvf/rvfx/x87 to the classes they add plus the two base vectors of every inherited class.  A case is one instance whose direct encoding succeeds; "
         "distinct non-trivial = distinct (arch, class, nested options chosen, relocation types, encoded length)")
 ASSUMPTIONS = [
     "self-consistency of two ppci paths: (A) instance emitted into BinaryOutputStream/ObjectFile, (B) the arch's assembler run on 'str(instance)' "
@@ -243,6 +243,7 @@ def config(tier):
 def work_items(cfg):
     from vf.gen import insgen
     items = []
+    inherited = {}
     only = [a for a in os.environ.get("VF_ARCHS", "").split(",") if a]
     for an in insgen.arch_names():
         if only and an not in only:
@@ -253,19 +254,23 @@ def work_items(cfg):
             base = set(map(id, insgen.get_arch_info(LIGHT_VARIANTS[an]).arch.isa.instructions))
         for ci in ai.classes:
             light = base is not None and id(ci.cls) in base
+            mode = cfg["mode"]
+            if mode == "product" and an in LIGHT_VARIANTS and id(ci.cls) in inherited.setdefault(
+                    an, set(map(id, insgen.get_arch_info(LIGHT_VARIANTS[an]).arch.isa.instructions))):
+                mode = "sweep"      # classes an option variant inherits get products under the base target only
             n = 1 if (light or not ci.operands) else cfg["nchunks"]
             for c in range(n):
-                items.append((an, ci.cid, c, n, light))
+                items.append((an, ci.cid, c, n, light, mode))
     return items
 
 
 def worker(p, shard, cfg, hs):
     from vf.gen import insgen
-    for an, cid, chunk, nchunks, light in shard:
+    for an, cid, chunk, nchunks, light, mode in shard:
         ai = insgen.get_arch_info(an)
         ci = ai.by_cid[cid]
         n = 0
-        for idx, inst in enumerate(insgen.class_instances(ci, cfg["mode"], cfg["full_bits"])):
+        for idx, inst in enumerate(insgen.class_instances(ci, mode, cfg["full_bits"])):
             if light and idx >= 2:
                 break
             if idx % nchunks != chunk:
